@@ -72,7 +72,8 @@ def fromUsizeVia (t : IntTy) (o : Outer) (k : Kind) (n : BitVec 64) : Option (Va
       some (r.number, s!" hist={if r.hasHistory then "some" else "none"} idx={r.index}")
     | none => none
 
-def floatFromUsize (ty : String) (n : Nat) : Option Nat :=
+/-- `none` = not a float type; `some none` cannot happen (`from_usize_float!` always succeeds) -/
+def floatFromUsize (ty : String) (n : Nat) : Option (Option Nat) :=
   if ty = "f32" then some (f32FromUsize n) else if ty = "f64" then some (f64FromUsize n) else none
 
 /-- the driver cross-checks the explicit rounding function against the Lean runtime's own
@@ -100,9 +101,10 @@ def fromUsizeLine (ty wrap : String) (n : Nat) : String :=
       | none => "none"
     | none =>
       match floatFromUsize ty n with
-      | some b =>
+      | some (some b) =>
         if b ≠ floatRuntime ty n then s!"MODEL-SPEC-DISAGREE roundNE {b} runtime {floatRuntime ty n}"
         else s!"some(bits:{b}){floatExtra o}"
+      | some none => "none"
       | none => "bad-op"
 
 /-- answer for one `n` of a range, as a small key: `none`, or the difference value − n -/
